@@ -99,6 +99,23 @@ class L3Session:
         self.cbs = {}        # (objIdx, cbId) -> callable
         self.in_init = None
         self.reply_version = True
+        self.stale = []      # update callbacks that did not find the reported value in the attribute they were told about
+        self._attr_map = None
+
+    def seen(self, idx, fn, value):
+        """called from inside an update callback: the attribute must already read the value the callback is told (cache first, then notify)"""
+        if self._attr_map is None:
+            T = core.tables()
+            self._attr_map = {(c["py"], f["name"]): f["attr"] for c in T["classes"] for f in c["fns"] if f["get"]}
+        attr = self._attr_map.get((self.pys[idx], fn))
+        if attr is None:
+            return
+        try:
+            cur = getattr(self.objs[idx], attr)
+        except Exception:  # noqa: BLE001
+            return
+        if cur != value and not (cur != cur and value != value):
+            self.stale.append({"class": self.pys[idx], "function": fn, "told": repr(value), "attribute_reads": repr(cur)})
 
     # ---- helpers
     def _add(self, op, real, meta=None):
@@ -118,6 +135,7 @@ class L3Session:
         if key not in self.cbs:
             def f(fn, value, _k=key):
                 self.calls.append((_k[0], _k[1], fn, value))
+                self.seen(_k[0], fn, value)
             self.cbs[key] = f
         return self.cbs[key]
 
